@@ -43,11 +43,27 @@
                       and Path=/p/ share one slot
      cf.domainCase    Dev_DomainCase: the Domain attribute is compared case-sensitively
                       (s5.2.3 says: convert to lower case)
+     cf.epochExpires  Dev_EpochExpires: an Expires date that parses to timestamp 0 (the classic
+                      deletion header "Thu, 01 Jan 1970 00:00:00 GMT") is treated as unparsable,
+                      i.e. as if the attribute were absent
+     cf.badMaxAge     Dev_BadMaxAge: a Max-Age whose value is not a number (s5.2.2: ignore the
+                      attribute) also hides a valid Expires of the same cookie; the expiry table
+                      is left as it was (session cookie, or the deadline of the cookie it replaces)
+
+   Session level (aiohttp/client.py ClientSession._request).  A request is a sequence of hops
+   (the first URL, then every redirect target).  Event "Hop" is one request on the wire; the
+   Cookie header of EVERY hop must be what the store attaches for that hop's URL at that
+   time (s5.4), overridden per name by the per-request cookies (`cookies=` of the call), which
+   travel with the request until a redirect leaves the origin (scheme, host) and are dropped
+   from then on.  s.req holds the request in flight: origin of the last hop, the per-request
+   cookies still carried (rc), those it started with (rc0), the last hop's URL.  A "Receive"
+   with via = "session" is a Set-Cookie on the response to the last hop.
 *)
 EXTENDS Naturals, Integers, Sequences, FiniteSets, TLC
 
 Session == 0          \* expiry of a non-persistent cookie
 T0 == 10              \* model clock at the start of a history
+EpochDate == 1        \* Expires = 1 Jan 1970 00:00:00 GMT (rendered literally; long before T0)
 
 (* ---------------------------------------------------------------- domains *)
 NumLabels == {"0", "1", "10"}
@@ -86,7 +102,8 @@ StripTrail(p) == IF p.segs = <<>> THEN Root ELSE [segs |-> p.segs, trail |-> FAL
 SecureScheme(sch) == sch \in {"https", "wss"}
 
 (* ------------------------------------------------------------------ store *)
-Init0(cf) == [cf |-> cf, store |-> {}, now |-> T0, fate |-> <<>>, vals |-> <<>>, hok |-> {}]
+NoReq == [active |-> FALSE, origin |-> <<>>, rc |-> <<>>, rc0 |-> <<>>, last |-> <<>>]
+Init0(cf) == [cf |-> cf, store |-> {}, now |-> T0, fate |-> <<>>, vals |-> <<>>, hok |-> {}, req |-> NoReq]
 
 \* cf.hosts / cf.paths: the lattice of the run.  Each stored cookie carries okH / okP, the hosts and
 \* paths of the lattice it domain-matches / path-matches, computed ONCE when it is stored (with
@@ -94,7 +111,8 @@ Init0(cf) == [cf |-> cf, store |-> {}, now |-> T0, fate |-> <<>>, vals |-> <<>>,
 \* only a cache: URLs outside the lattice are matched directly.
 PropertyCf(unsafe, hosts, paths) ==
     [unsafe |-> unsafe, hosts |-> hosts, paths |-> paths, hostOnlyEnforced |-> TRUE, saveHostOnly |-> TRUE,
-     hostOnlyKey |-> FALSE, staleExpiry |-> FALSE, pathAlias |-> FALSE, domainCase |-> FALSE]
+     hostOnlyKey |-> FALSE, staleExpiry |-> FALSE, pathAlias |-> FALSE, domainCase |-> FALSE,
+     epochExpires |-> FALSE, badMaxAge |-> FALSE]
 
 Expired(c, now) == c.expiry # Session /\ c.expiry <= now
 
@@ -137,10 +155,14 @@ DoReceive(s, e) ==
     ELSE
         LET path == IF e.pth.present THEN MkPath(e.pth) ELSE DefaultPath(e.path)  \* s5.2.4 / s5.3 step 7
             old == {c \in s.store : SameId(s, c, e.name, dom, path)}
+            \* e.maxage: -1 absent, -2 present but not a number (s5.2.2: ignore the attribute), else seconds
+            \* e.expires: 0 absent, else an absolute model time (EpochDate = "1 Jan 1970", long ago)
+            inherit == IF old # {} THEN (CHOOSE c \in old : TRUE).expiry ELSE Session
             expiry == IF e.maxage >= 0 THEN s.now + e.maxage             \* s5.2.2, wins over Expires
-                      ELSE IF e.expires # 0 THEN e.expires                \* s5.2.1
-                      ELSE IF s.cf.staleExpiry /\ old # {}                \* Dev_StaleExpiry
-                           THEN (CHOOSE c \in old : TRUE).expiry
+                      ELSE IF e.maxage = -2 /\ e.expires # 0 /\ s.cf.badMaxAge THEN inherit   \* Dev_BadMaxAge
+                      ELSE IF e.expires # 0 /\ ~(s.cf.epochExpires /\ e.expires = EpochDate)
+                           THEN e.expires                                 \* s5.2.1
+                      ELSE IF s.cf.staleExpiry THEN inherit               \* Dev_StaleExpiry
                       ELSE Session
             new == [name |-> e.name, domain |-> dom, hostOnly |-> ho, path |-> path,
                     secure |-> e.secure, expiry |-> expiry, value |-> e.val, wid |-> Len(s.fate) + 1,
@@ -162,6 +184,17 @@ DoSaveLoad(s) ==
                  !.hok = {<<c.domain, c.name>> : c \in {x \in kept : x.hostOnly}},
                  !.fate = SetFate(s.fate, lost, "cleared")]
 
+\* one request on the wire.  start: the first hop of a new request (carrying its per-request
+\* cookies e.rc); otherwise a redirect target: leaving the origin drops the per-request cookies.
+Origin(e) == <<e.scheme, e.host>>
+UrlOf(e) == <<e.host, MkPath(e.path), e.scheme>>
+ZeroRow(r) == [i \in 1..Len(r) |-> 0]
+DoHop(s, e) ==
+    IF e.start
+    THEN [s EXCEPT !.req = [active |-> TRUE, origin |-> Origin(e), rc |-> e.rc, rc0 |-> e.rc, last |-> UrlOf(e)]]
+    ELSE [s EXCEPT !.req.rc = IF Origin(e) = s.req.origin THEN s.req.rc ELSE ZeroRow(s.req.rc),
+                   !.req.origin = Origin(e), !.req.last = UrlOf(e)]
+
 Step(s, e) ==
     CASE e.ev = "Receive" -> DoReceive(s, e)
       [] e.ev = "Tick" -> Purge([s EXCEPT !.now = s.now + e.n])
@@ -169,13 +202,17 @@ Step(s, e) ==
       \* documented: "remove all cookies that belong to the domain or its subdomains"
       [] e.ev = "ClearDomain" -> Delete(s, {c \in s.store : DomainMatch(e.d, c.domain)}, "cleared")
       [] e.ev = "SaveLoad" -> DoSaveLoad(s)
+      [] e.ev = "Hop" -> DoHop(s, e)
       [] OTHER -> s
 
 IsRejected(s, e) == e.ev = "Receive" /\ LET f == Step(s, e).fate IN f[Len(f)] \in {"rejected-ip", "rejected-domain"}
 
 Legal(s, e) ==
     \* a fresh value (the write's own number) or the value of an earlier write
-    CASE e.ev = "Receive" -> e.val >= 1 /\ e.val <= Len(s.fate) + 1 /\ e.maxage >= -1 /\ e.expires >= 0
+    CASE e.ev = "Receive" -> /\ e.val >= 1 /\ e.val <= Len(s.fate) + 1 /\ e.maxage >= -2 /\ e.expires >= 0
+                             \* a Set-Cookie of the session's response belongs to the hop just sent
+                             /\ e.via = "session" => (s.req.active /\ s.req.last = UrlOf(e))
+      [] e.ev = "Hop" -> e.start \/ s.req.active
       [] e.ev = "Tick" -> e.n >= 1
       [] e.ev \in {"Clear", "ClearDomain", "SaveLoad", "Query"} -> TRUE
       [] OTHER -> FALSE
@@ -248,11 +285,33 @@ Judge(s, B, names, obs) ==
                                IN [bad |-> QClause(s, B[i], obs[i], names), at |-> i]
             ELSE [bad |-> "UnderSend", at |-> CHOOSE i \in wrong : \A j \in wrong : i <= j]
 
+\* the Cookie header of a hop: per-request cookies still carried override the store, name by name
+HopClause(s, q, ob, names) ==
+    LET rc == s.req.rc
+        Carried(k) == IF k \in DOMAIN rc THEN rc[k] ELSE 0
+        Started(k) == IF k \in DOMAIN s.req.rc0 THEN s.req.rc0[k] ELSE 0
+        R == Retrieve(s, q)
+        cl == [k \in 1..Len(names) |->
+                  IF Carried(k) # 0 THEN (IF ob[k] = Carried(k) THEN "" ELSE "ReqCookieLost")
+                  ELSE IF ob[k] # 0 /\ ob[k] = Started(k) THEN "ReqCookieLeak"   \* sent on after leaving the origin
+                  ELSE LET S == {c.value : c \in {x \in R : x.name = names[k]}} IN
+                       IF ob[k] = 0 THEN (IF S = {} THEN "" ELSE "UnderSend")
+                       ELSE IF ob[k] \in S THEN ""
+                       ELSE LeakName(s, q, names[k], ob[k])]
+        leaks == {k \in 1..Len(names) : cl[k] \notin {"", "UnderSend"}}
+        unders == {k \in 1..Len(names) : cl[k] = "UnderSend"}
+    IN IF leaks # {} THEN cl[CHOOSE k \in leaks : \A j \in leaks : k <= j]
+       ELSE IF unders # {} THEN "UnderSend" ELSE ""
+
 (* Apply: one recorded event.  e.obs is the battery answer taken after the action
    (for ev = "Query": the single answer to the event's own URL, e.g. the Cookie
    header a real ClientSession sent).                                           *)
 Apply(s, e, B, names) ==
     IF ~Legal(s, e) THEN [s |-> s, bad |-> "IllegalStimulus", at |-> 0]
+    ELSE IF e.ev = "Hop" THEN
+        LET s2 == Step(s, e)
+        IN [s |-> s2, at |-> 0,
+            bad |-> HopClause(s2, [host |-> e.host, path |-> MkPath(e.path), scheme |-> e.scheme], e.obs[1], names)]
     ELSE LET s2 == Step(s, e)
              j == IF e.ev = "Query"
                   THEN Judge(s2, <<[host |-> e.host, path |-> MkPath(e.path), scheme |-> e.scheme]>>, names, e.obs)
